@@ -10,7 +10,7 @@ Top-level obligations (taken from the property statements):
 import re
 
 from vf.extract import extract_item, extract_fn
-from vf.unit import Unit, _find_all
+from vf.unit import Unit, _find_all, unextend_iter
 
 PRELUDE = r'''
 #![allow(unused_imports, unused_variables, dead_code, unused_mut, unused_parens)]
@@ -228,6 +228,7 @@ def build():
     mm = u.extract(D, r'impl Deduplicator', 'mark_mentioned', 'Deduplicator::mark_mentioned')
     mm.sig_rewrite('R11', '<F: Field>', '<F>')
     mm.rewrite_re('R5', r'for (\w+) in (inputs|outputs|group) \{', r'for q_\2 in 0..\2.len() { let \1 = &\2[q_\2];', min_count=0)
+    unextend_iter(mm)
     mm.attr('#[verifier::loop_isolation(false)]')
     mm.ensures('records_exactly_the_slots_the_op_mentions', 'forall|x: WitnessId| #[trigger] final(self).mentioned@.contains(x) <==> (old(self).mentioned@.contains(x) || mentions(*op, x))')
     mm.ensures('tables_untouched', 'final(self).rewrite@ == old(self).rewrite@ && final(self).seen@ == old(self).seen@')
